@@ -129,7 +129,12 @@ def main():
                              "git -C /repo apply patch.diff; ./check Cxx for all 20 properties; git -C /repo checkout -- ."],
             "caught_by": caught, "caught_with_failing_input": with_input, "target_check_catches": prop in caught,
             "checks": res}
-    json.dump(meta, open(os.path.join(d, "meta.json"), "w"), indent=1)
+    mp = os.path.join(d, "meta.json")
+    if os.path.exists(mp):
+        # a re-evaluation after the checks were strengthened: keep the earlier verdicts
+        old = json.load(open(mp))
+        meta["previous_runs"] = old.get("previous_runs", []) + [{k: old.get(k) for k in ("caught_by", "caught_with_failing_input", "target_check_catches")}]
+    json.dump(meta, open(mp, "w"), indent=1)
     print("%s (target %s): caught by %s; with failing input: %s" % (name, prop, ",".join(caught) or "NONE", ",".join(with_input) or "none"))
     if prop in res:
         print("  target:", res[prop]["what"][:300])
